@@ -152,10 +152,13 @@ def decide(spec, group, tier, seed, replay=None):
             mout = core.run_lines([core.driver_exe(), group['driver']], [lines[i] for i in cmp_idx]) if ok and cmp_idx else []
             t_model = time.time() - t0
             log('%s: %d lines; implementation %.1fs (harness build %.1fs), model %.1fs' % (pid, len(lines), t_impl, t_h, t_model))
+            mcanon = spec.get('model_canon') or (lambda l: l)
             for j, i in enumerate(cmp_idx):
-                model_out[i] = mout[j] if j < len(mout) else 'err no-output'
+                model_out[i] = (mcanon(mout[j]) if j < len(mout) else 'err no-output')
+                if spec.get('impl_canon'): model_out[i] = spec['impl_canon'](model_out[i], cases[i].line)
             for i, c in enumerate(cases):
                 impl_out[i] = iout[i] if i < len(iout) else 'err no-output'
+                if spec.get('impl_canon'): impl_out[i] = spec['impl_canon'](impl_out[i], c.line)
                 if c.kind == 'cmp':
                     if ok and canon(impl_out[i]) != canon(model_out[i]):
                         k = known_match(known, pid, c.line)
